@@ -299,7 +299,7 @@ func (h *H) Report(t TB, sub string, caseKey string, c interface{}, v Verdict) {
 		h.mu.Unlock()
 		h.FlushFailure(sub)
 		tt.Errorf("property %s/%s violated: %s\n--- expected\n%s\n--- observed\n%s", h.Property, sub, v.Detail, clip(v.Expected, 1500), clip(v.Observed, 1500))
-		if n >= 5 {
+		if n >= envInt("VERIF_ENUM_FAILCAP", 5) {
 			tt.Fatalf("too many failures in %s: stopping this sub-check", sub)
 		}
 		return
